@@ -25,6 +25,8 @@ FileSets == {<<a>> : a \in Classes} \cup {<<a, b>> : a \in Classes, b \in Classe
 
 Cmds == {"validate", "validate-quiet", "validate-json", "validate-sarif",
          "format", "format-check", "format-inplace", "format-output",
+         \* --check given together with a flag that writes: checking wins, nothing is written
+         "format-check-inplace", "format-check-output",
          "lint", "lint-failwarn", "lint-fix", "parse"}
 
 Sources == {"files", "stdin", "inline"}
@@ -82,7 +84,7 @@ ExitOf(c) ==
     CASE c.cmd \in {"validate", "validate-quiet", "validate-json", "validate-sarif", "parse",
                     "format", "format-inplace", "format-output"}
             -> IF AllAccepted(c.ins) THEN 0 ELSE 1
-      [] c.cmd = "format-check"
+      [] c.cmd \in {"format-check", "format-check-inplace", "format-check-output"}
             -> IF AllAccepted(c.ins) /\ \A i \in DOMAIN c.ins : Formatted(c.ins[i]) THEN 0 ELSE 1
       \* the text-level lint rules run on any text; only findings of failing severity fail the command
       [] c.cmd \in {"lint", "lint-fix"} -> 0
@@ -110,7 +112,10 @@ Spec == Init /\ [][Next]_vars
 
 \* design-level consistency of the verdict table --------------------------------
 IsCheckOnly(c) == c.cmd \in {"validate", "validate-quiet", "validate-json", "validate-sarif", "format",
-                             "format-check", "lint", "lint-failwarn", "parse"}
+                             "format-check", "format-check-inplace", "format-check-output", "lint", "lint-failwarn", "parse"}
+\* a flag that writes does not change what --check says
+CheckWins == case.cmd \in {"format-check-inplace", "format-check-output"} =>
+                 verdict = Verdict([cmd |-> "format-check", src |-> case.src, ins |-> case.ins, pres |-> case.pres, env |-> case.env])
 CheckNeverWrites == IsCheckOnly(case) => verdict.may = {}
 ExitIffAccepted == (case.cmd \in {"validate", "validate-quiet", "validate-json", "validate-sarif", "parse"})
                       => (verdict.exit = 0 <=> AllAccepted(case.ins))
